@@ -136,3 +136,15 @@ Theorem qrw_admission : forall s t,
     end.
 Proof. exact qrw_try_wake_thm. Qed.
 Print Assumptions qrw_admission.
+
+(* the blocking path on the downgrade scenario (seeded change C06_1): with the timed writer's failed call the reader is still
+   parked while the lock is read-held, without it the reader holds — "as if not called" is refuted for qrwlock too
+   (the reader is woken by the last reader's unlock: qd_then_unlock in C06_QProofs6.v) *)
+Theorem qrw_failed_lock_as_if_not_called_refuted : exists lsA lsB sA sB oA,
+  qrun_obs qrw0 lsA = Some (sA, oA) /\ qrun qrw0 lsB = Some sB /\
+  In (1%nat, -1, ETIMEDOUT) oA /\
+  (forall l, In l lsB -> In l lsA /\ qactor_of l <> 1%nat) /\
+  ls sA = 1 /\ qu sA = [] /\ qs sA = [2%nat] /\ qholds sA 2%nat = false /\
+  ls sB = 2 /\ qu sB = [] /\ qs sB = [] /\ qholds sB 2%nat = true.
+Proof. exact qrw_failed_lock_as_if_not_called_refuted_thm. Qed.
+Print Assumptions qrw_failed_lock_as_if_not_called_refuted.
